@@ -475,6 +475,10 @@ func (e *SEnv) object(obj types.Object) Val {
 		if o.Pkg() != nil {
 			if sp := vc.p.ssa.Package(o.Pkg()); sp != nil {
 				if g, ok := sp.Members[o.Name()].(*ssa.Global); ok {
+					if _, isArr := o.Type().Underlying().(*types.Array); isArr {
+						// arrays are used through their address (indexing)
+						return Val{T: types.NewPointer(o.Type()), S: []Term{tInt(int64(vc.p.globalRef(g))), "0"}}
+					}
 					return e.load(e.cur, tInt(int64(vc.p.globalRef(g))), "0", o.Type())
 				}
 			}
